@@ -800,6 +800,8 @@ impl TypeLayout {
             TypeLayout::Map(..) => false,
             TypeLayout::ValidIndexes(..) => unreachable!(),
             TypeLayout::Void => false,
+            // two present optionals are compared through the values they hold
+            TypeLayout::Optional(Some(inner)) => inner.supports_equ(),
             _ => true,
         }
     }
